@@ -309,8 +309,14 @@ def wire_cases(rng, tier):
             m = m[:2] + w.to_bytes(2, "big") + m[4:]  # a message that verifies
         elif r < 0.6:
             m = m[:2] + ((w + 1) & 0xFFFF).to_bytes(2, "big") + m[4:]  # off by one
-        elif r < 0.7 and w in (0, 0xFFFF):
-            m = m[:2] + (0xFFFF - w).to_bytes(2, "big") + m[4:]  # the other representation of zero
+        elif r < 0.85 and m[0] in (128, 129, 2, 4, 0, 5, 100, 101, 127, 138, 139, 150, 200, 201, 254, 255):
+            # the two representations of zero: make everything but the checksum field sum to 0xffff (bytes 4..5 are
+            # free in these types), then the computed checksum is 0x0000 and a stored 0xffff verifies as well
+            m0 = m[:4] + bytes(2) + m[6:]
+            w0 = rfc1071(pseudo6(src, dst, 58, len(m0)) + zero_at(m0, 2))
+            m = m0[:4] + w0.to_bytes(2, "big") + m0[6:]
+            w = rfc1071(pseudo6(src, dst, 58, len(m)) + zero_at(m, 2))
+            m = m[:2] + rng.choice([b"\xff\xff", b"\xff\xff", b"\x00\x00"]) + m[4:]
         valid = rfc1071(pseudo6(src, dst, 58, len(m)) + m) == 0
         yield Case(["ck.w.icmp6\t%s\t%s\t%s" % (hx(src), hx(dst), hx(m))],
                    {"k": "w6", "want": w, "valid": valid, "data": hx(m)})
